@@ -10,11 +10,11 @@ CHECK = dict(
     ],
     units=[
         dict(name="dnssvc", dir="internal/dnssvc", src=["C10/fixture", "C15/dnssvc"], runs=[
-            dict(name="log", run="^TestVerifC15Log$", quick=6000, thorough=200000, shards_quick=2, shards_thorough=8),
+            dict(name="log", run="^TestVerifC15Log$", quick=12000, thorough=400000, shards_quick=2, shards_thorough=8),
         ]),
         dict(name="querylog", dir="internal/querylog", src="C15/querylog", runs=[
             dict(name="concurrent", run="^TestVerifC15FSConcurrent$", quick=300, thorough=12000, shards_thorough=4),
-            dict(name="race", run="^TestVerifC15FSConcurrentRace$", quick=60, thorough=1500, shards_thorough=2, race=True),
+            dict(name="race", run="^TestVerifC15FSConcurrentRace$", quick=400, thorough=8000, shards_thorough=2, race=True),
         ]),
     ],
 )
